@@ -7,7 +7,7 @@ Correspondence: every line is `pos(lemma)` plus a list of option combinations; t
 (current language set before every form, `Constituent.warn` counted, exceptions are outputs) and the model driver
 `drv_decl` on the same lines; tokens after `doFormat`, the detokenized text and the warning count are compared.
 Thorough: the complete finite space below (16 processes).  Quick: one lemma per (language, type, table, lexicon flag)
-plus a 5 % sample.  A separate stream exercises `bestMatch` on synthetic tables, and a malformed stream unknown
+plus a 2 % sample.  A separate stream exercises `bestMatch` on synthetic tables, and a malformed stream unknown
 lemmas, wrong parts of speech, illegal option values / receivers, `.maje()`, repeated options.
 
 Oracle (independent of the Lean model): the declarative reading of the property recomputed in Python from the rules
@@ -368,7 +368,7 @@ def signature(lang, pos, lemma, combo, kind):
 # --------------------------------------------------------------------------------------------- jobs
 
 def make_line(job):
-    lang, pos, lemma, ckey, extra = job
+    lang, pos, lemma, ckey, extra = job[:5]
     combos = extra if ckey is None else COMBOS[ckey]
     return {"op": "decl", "lang": lang, "pos": pos, "lemma": lemma, "lex": mini_lex(lang, pos, lemma), "combos": combos}
 
@@ -382,11 +382,13 @@ def run_chunk(args):
     lines = [make_line(j) for j in jobs]
     model = core.run_driver(lines, driver)
     res = {"n": 0, "diffs": [], "fails": [], "digests": set(), "dist": {}, "samples": [], "nontrivial": 0, "warned": 0,
-           "errs": 0, "oracle_checked": 0}
+           "errs": 0, "oracle_checked": 0, "unusable": []}
     for job, line, m in zip(jobs, lines, model):
         if "driver_error" in m:
             raise core.Infra("driver error on %s %s %s: %s" % (job[0], job[1], job[2], m["driver_error"]))
         lang, pos, lemma = job[0], job[1], job[2]
+        if job[5] and not m.get("usable"):
+            res["unusable"].append([lang, pos, lemma])      # hypothesis `usableB` of decl_total fails on a real entry
         ent = Data.lex[lang].get(norm(lemma)) if isinstance(lemma, str) else None
         tab = ent[pos].get("tab") if isinstance(ent, dict) and isinstance(ent.get(pos), dict) else None
         dk = "%s,%s" % (lang, pos)
@@ -410,7 +412,7 @@ def run_chunk(args):
                     res["digests"].add(hashlib.md5(core.canon([lang, pos, tab, combo, a]).encode()).digest())
             if len(res["samples"]) < 1:
                 res["samples"].append(({"op": "decl", "lang": lang, "pos": pos, "lemma": lemma, "combos": [combo]}, a))
-            if oracle_on and job[3] is not None:
+            if oracle_on and job[5]:
                 sp = spec_form(lang, pos, lemma, combo)
                 if sp is None:
                     continue
@@ -450,6 +452,9 @@ def lemma_strata(lang, pos):
     return groups
 
 
+SAMPLE = 0.02          # quick tier: share of the lemmas of a stratum drawn besides its representative
+
+
 def gen_jobs(ctx, full):
     rng = ctx.rng
     jobs = []
@@ -465,13 +470,22 @@ def gen_jobs(ctx, full):
                 else:
                     first = rng.choice(lemmas)
                     chosen.append(first)
-                    chosen += [l for l in lemmas if l != first and rng.random() < 0.05]
-            if not full and pos in ("D", "Pro"):
-                # few lemmas, large products: keep the per-table representatives and a 5 % sample of the others
-                pass
+                    chosen += [l for l in lemmas if l != first and rng.random() < SAMPLE]
             ck = combos_key(lang, pos)
+            if not full and pos == "Pro":
+                # quick tier: the sub-product pe4 x tn3 x c6 x g{-,m,f} x n{-,s,p} x own{-,s} completely, plus a seeded 5 % of
+                # the rest (g n/x, n x, own p/x)
+                def small(c):
+                    return not any((k == "g" and v in ("n", "x")) or (k == "n" and v == "x") or (k == "ow" and v in ("p", "x"))
+                                   for k, v in c)
+                core_ = [c for c in COMBOS[ck] if small(c)]
+                rest = [c for c in COMBOS[ck] if not small(c)]
+                for l in chosen:
+                    jobs.append((lang, pos, l, None, core_ + [c for c in rest if rng.random() < 0.05], True))
+                scope["%s,%s" % (lang, pos)] = "%d lemmas x (%d + 5%% of %d) combinations" % (len(chosen), len(core_), len(rest))
+                continue
             for l in chosen:
-                jobs.append((lang, pos, l, ck, None))
+                jobs.append((lang, pos, l, ck, None, True))
             scope["%s,%s" % (lang, pos)] = "%d lemmas x %d combinations" % (len(chosen), len(COMBOS[ck]))
     return jobs, scope
 
@@ -496,35 +510,35 @@ def gen_malformed(ctx):
         for pos in POSES:
             own = [l for l in allw if isinstance(lex[l], dict) and isinstance(lex[l].get(pos), dict)]
             other = [l for l in allw if isinstance(lex[l], dict) and pos not in lex[l]]
-            picks = [rng.choice(own) for _ in range(60)] + [rng.choice(other) for _ in range(15)]
+            picks = [rng.choice(own) for _ in range(30)] + [rng.choice(other) for _ in range(10)]
             picks += ["zzzqq", "", "Zq-x", "cœur", "œil", "sœur", "nævus", "bœuf", "manœuvre", "foetus"]
             lig = [l for l in own if "oe" in l or "ae" in l]
             picks += [rng.choice(lig).replace("oe", "œ").replace("ae", "æ") for _ in range(5)] if lig else []
             for l in picks:
-                jobs.append((lang, pos, l, None, [rnd_combo() for _ in range(40)]))
+                jobs.append((lang, pos, l, None, [rnd_combo() for _ in range(30)], False))
         # majestic forms of the possessive determiners and of every D / Pro
         for pos in ("D", "Pro"):
             own = [l for l in allw if isinstance(lex[l], dict) and isinstance(lex[l].get(pos), dict)]
             special = [l for l in ("my", "mon", "ton", "notre", "votre", "son", "leur", "our", "me", "moi", "je", "I") if l in own]
-            sample = special + [rng.choice(own) for _ in range(25)]
+            sample = special + [rng.choice(own) for _ in range(8)]
             base = product(("maje", [True, False]), ("g", [ABS, "f"]), ("n", [ABS, "s", "p"]), ("pe", [ABS, 1, 2, 3, "2"]),
                            ("ow", [ABS, "s", "p"]))
             for l in sample:
-                jobs.append((lang, pos, l, None, base))
+                jobs.append((lang, pos, l, None, base, False))
         # options on receivers that do not allow them / values outside the enumerated space, every type
         for pos in POSES:
             own = [l for l in allw if isinstance(lex[l], dict) and isinstance(lex[l].get(pos), dict)]
             wrong = product(("f", [ABS, "co"]), ("tn", [ABS, "", "refl"]), ("c", [ABS, "nom", "gen"]), ("ow", [ABS, "p"]),
                             ("g", [ABS, "x", "n"]), ("n", [ABS, "x"]), ("pe", [ABS, "1", 2]))
-            for _ in range(12):
-                jobs.append((lang, pos, rng.choice(own), None, wrong))
+            for _ in range(3):
+                jobs.append((lang, pos, rng.choice(own), None, wrong, False))
         # .tn() / .c() without argument, repeated options (documentation style .g("m").g("f").g("n"))
         pro = [l for l in allw if isinstance(lex[l], dict) and isinstance(lex[l].get("Pro"), dict)]
         rep = [[["tn", None]], [["c", None]], [["tn", None], ["pe", 2]], [["g", "m"], ["g", "f"], ["g", "n"]],
                [["pe", 1], ["pe", 3], ["n", "p"], ["n", "s"]], [["c", "nom"], ["c", "acc"]], [["tn", "refl"], ["tn", ""]],
                [["n", "p"], ["g", "f"], ["pe", 2], ["ow", "p"], ["c", "dat"]], [["c", "dat"], ["ow", "p"], ["pe", 2], ["g", "f"], ["n", "p"]]]
         for l in pro:
-            jobs.append((lang, "Pro", l, None, rep))
+            jobs.append((lang, "Pro", l, None, rep, False))
     return jobs
 
 
@@ -658,7 +672,7 @@ def run_doc_cells_on_impl(ctx):
     Impl.realwarn = False
     n = 0
     for (lang, pos, lemma, opts, form) in doccells.load_cells():
-        combo = [[("ow" if k == "ow" else k), v] for k, v in opts]
+        combo = [[k, v] for k, v in opts]
         a = impl_one(lang, pos, lemma, combo)
         n += 1
         line = {"op": "decl", "lang": lang, "pos": pos, "lemma": lemma, "combos": [combo], "documented": form}
@@ -693,7 +707,7 @@ def run(ctx, deep=False):
     if bad_cells:
         doc_cell_failures(ctx, bad_cells)
     run_doc_cells_on_impl(ctx)
-    run_bestmatch(ctx, 30000 if full else 6000)
+    run_bestmatch(ctx, 30000 if full else 4000)
 
     jobs, scope = gen_jobs(ctx, full)
     mal = gen_malformed(ctx)
@@ -706,6 +720,7 @@ def run(ctx, deep=False):
     work += [(c, ctx.driver, True, False) for c in chunks(mal, 4000)]
     tot = {"n": 0, "nontrivial": 0, "warned": 0, "errs": 0, "oracle_checked": 0}
     dist = {}
+    unusable = []
     nproc = min(16, max(1, len(work)))
     mpctx = multiprocessing.get_context("fork")
     with mpctx.Pool(nproc) as pool:
@@ -714,6 +729,7 @@ def run(ctx, deep=False):
                 tot[k] += res[k]
             for k, v in res["dist"].items():
                 dist[k] = dist.get(k, 0) + v
+            unusable += res["unusable"]
             ctx.distinct.update(res["digests"])
             ctx.cov["evaluations"] += res["n"]
             ctx.cov["traces_validated_against_impl"] += res["n"]
@@ -733,6 +749,8 @@ def run(ctx, deep=False):
     else:
         ctx.notes["sample_scope"] = scope
     ctx.notes["forms"] = tot
+    ctx.notes["wf_sweep"] = {"entries_checked": len(jobs), "entries_failing_usableB": len(unusable),
+                             "first_failing": sorted(unusable)[:10]}
     ctx.notes["distribution(lang,pos)"] = dist
     ctx.notes["malformed_stream_lines"] = len(mal)
     ctx.notes["correspondence_wall_s"] = round(time.time() - t0, 1)
